@@ -125,7 +125,7 @@ package rawkv
 //@   at return assert answer: result1 == nil && defined(cmdResp) ==> cmdResp.Error == "" && (cmdResp.NotFound ==> result0 == nil) && (!cmdResp.NotFound ==> result0 != nil)
 //@ func convertNilToEmptySlice
 //@   prop C11
-//@   ensures result != nil && len(result) == len(value)
+//@   ensures result != nil && len(result) == len(value) && (value != nil ==> result == value)
 // Put (with or without a time-to-live): a RawPut carrying the key, the value and the time-to-live given, with the client's
 // compare-and-swap mode.
 //@ func (c *Client) PutWithTTL
